@@ -8,7 +8,11 @@
       any configuration file.  Where cheap, the behaviour is checked too (sort order, filters, detection switches,
       output directory): the echoed value is the one the analysis used.
  (D2) a file that spells out every key of every section with its documented default must give the same results as
-      no file at all, in both file styles.
+      no file at all, in both file styles; on a project with a .pyi stub also an empty file and a one-key file.
+ (D4) keys whose wiring the translator reads off the code (Cli/ConfigKeysWiring.v: [clones] skip_docstrings and
+      max_edit_distance, [output] format, [dead_code] enabled): model and judgement are evaluated on the Coq instance;
+      [dead_code] detect_*: the kinds of findings reported against reported / switch_of; [dead_code] enabled against
+      --select / --skip-deadcode (dead_code_runs / dead_code_runs_spec).
 """
 import json
 import os
@@ -19,7 +23,7 @@ import lib
 from lib import cZ, clist
 
 REQ = ("From Coq Require Import ZArith List Bool.\nImport ListNotations.\n"
-       "From PV Require Import Cli.ConfigKeys Props.C17Keys.\nOpen Scope Z_scope.")
+       "From PV Require Import Cli.ConfigKeys Cli.ConfigKeysWiring Props.C17Keys.\nOpen Scope Z_scope.")
 
 BIG = 10 ** 9
 NOVAL = (1, 0)      # lo > hi: not validated
@@ -68,7 +72,7 @@ class Key:
     """kind: bool | int | frac (1/10000) | enum (index into `domain`, 0 = "", len+1 = anything else) | list (index into `lists`)."""
 
     def __init__(self, section, key, kind, default, presence, select, echo, values, plumbing=("UsesFile",), rng=NOVAL, domain=None,
-                 lists=None, behave=None, empty_is_default=False, family=None, argv=None, on_result=False):
+                 lists=None, behave=None, empty_is_default=False, family=None, argv=None, on_result=False, coq_key=None):
         self.section, self.key, self.kind, self.default, self.presence = section, key, kind, default, presence
         self.select, self.echo, self.values, self.plumbing, self.rng = select, echo, values, plumbing, rng
         self.domain, self.lists, self.behave, self.empty_is_default = domain, lists, behave, empty_is_default
@@ -76,6 +80,9 @@ class Key:
         self.family = family or self.name     # keys that share one cause (for the known-findings register)
         self.argv = argv                      # None: analyze --json --select <select>
         self.on_result = on_result            # echo reads the run (exit status, report files), not the JSON report
+        # the key as an instance of Cli/ConfigKeysWiring.v (built from what the translator reads off the code): the model and the
+        # judgement are evaluated on that instance; presence / default / range of this table must agree with it (checked)
+        self.coq_key = coq_key
 
     # python value -> Z
     def enc(self, v):
@@ -106,9 +113,21 @@ class Key:
         return json.dumps(v)
 
     def coq_plumbing(self):
+        if self.coq_key:
+            return "(k_plumbing %s)" % self.coq_key
         if self.plumbing[0] == "UsesFile":
             return "UsesFile"
         return "(%s %s)" % (self.plumbing[0], cZ(self.enc(self.plumbing[1])))
+
+    def coq_run(self, file_arg):
+        if self.coq_key:
+            return "run_keyspec %s %s" % (self.coq_key, file_arg)
+        return "run_key %s %s" % (self.coq_args(), file_arg)
+
+    def coq_judge(self, file_arg, o):
+        if self.coq_key:
+            return "judge_keyspec %s %s %s" % (self.coq_key, file_arg, o)
+        return "judge_key %s %s %s" % (self.coq_args(), file_arg, o)
 
     def coq_args(self):
         lo, hi = self.rng
@@ -215,6 +234,11 @@ def b_max_sim(data, v):
     return ("pairs with similarity %s reported above max_similarity %s" % (bad, v)) if bad else None
 
 
+def b_max_dist(data, v):
+    bad = [p["distance"] for p in clone_pairs(data) if v > 0 and p["distance"] > v + 1e-9]
+    return ("pairs with edit distance %s reported above max_edit_distance %s" % (bad, v)) if bad else None
+
+
 def b_clone_types(data, v):
     ok = {int(t[4:]) for t in v if t[:4] == "type" and t[4:].isdigit()}
     bad = sorted({p["type"] for p in clone_pairs(data)} - ok)
@@ -258,8 +282,9 @@ KEYS = [
     Key("output", "sort_by", E, "complexity", PNE, "complexity", path("complexity", "Config", "sort_by"), ["name", "risk", "bogus"],
         rng=(1, 3), domain=["name", "complexity", "risk"], behave=b_cx_sorted),
     # no format flag at all: analyze's own default is HTML; the file's [output] format should replace it
+    # ("text", what DefaultPyscnConfig and `pyscn init` carry, is no format of analyze: HTML is kept; part C covers the init file)
     Key("output", "format", E, "html", PNE, "complexity", report_format, ["json", "yaml", "csv", "html", "bogus"], rng=(1, 5),
-        domain=["text", "json", "yaml", "csv", "html"], plumbing=("NotCopied", "html"), argv=["--select", "complexity,deadcode"], on_result=True),
+        domain=["text", "json", "yaml", "csv", "html"], argv=["--select", "complexity,deadcode"], on_result=True, coq_key="key_output_format"),
     # where the report goes
     Key("output", "directory", E, "", PNE, "complexity", report_directory, ["outdir"], domain=["outdir"], argv=["--json", "--select", "complexity"],
         on_result=True),
@@ -270,7 +295,7 @@ KEYS = [
     # ---- [dead_code] -----------------------------------------------------------------------------------------------
     Key("dead_code", "min_severity", E, "warning", PNE, "deadcode", None, ["bogus"], rng=(1, 3), domain=SEVS),
     # the file-side counterpart of --skip-deadcode / --select
-    Key("dead_code", "enabled", B, True, PP, "deadcode", dead_code_ran, [False], plumbing=("NotCopied", True), argv=ONLY_DEAD, on_result=True),
+    Key("dead_code", "enabled", B, True, PP, "deadcode", dead_code_ran, [False, True], argv=ONLY_DEAD, on_result=True, coq_key="key_dead_code_enabled"),
     Key("dead_code", "show_context", B, False, PP, "deadcode", path("dead_code", "config", "show_context"), [True]),
     Key("dead_code", "context_lines", I, 3, PP, "deadcode", path("dead_code", "config", "context_lines"), [5, 0, 20, 21, -1], rng=(-BIG, 20)),      # `< 0` is tested on a copy that only takes values > 0 (config.go:330): never refused
     Key("dead_code", "sort_by", E, "severity", PNE, "deadcode", path("dead_code", "config", "sort_by"), ["line", "file", "function", "bogus"],
@@ -294,13 +319,14 @@ KEYS = [
     # ---- [clones] --------------------------------------------------------------------------------------------------
     Key("clones", "min_lines", I, 10, PPOS, "clones", path("clone", "request", "min_lines"), [3, 40], rng=(1, BIG)),
     Key("clones", "min_nodes", I, 20, PPOS, "clones", path("clone", "request", "min_nodes"), [5], rng=(1, BIG)),
-    Key("clones", "max_edit_distance", F_, 50.0, PPOS, "clones", path("clone", "request", "max_edit_distance"), [30.0],
-        plumbing=("RequestWins", 0.0)),
+    # 3.0: below the distance of the sample's near-copies, so the limit in force changes what is reported
+    Key("clones", "max_edit_distance", F_, 50.0, PPOS, "clones", path("clone", "request", "max_edit_distance"), [30.0, 3.0, 50.0],
+        behave=b_max_dist, coq_key="key_clones_max_edit_distance"),
     Key("clones", "cost_model_type", E, "python", PNE, "clones", None, ["bogus"], rng=(1, 3), domain=["default", "python", "weighted"]),
     Key("clones", "ignore_literals", B, False, PP, "clones", path("clone", "request", "ignore_literals"), [True]),
     Key("clones", "ignore_identifiers", B, False, PP, "clones", path("clone", "request", "ignore_identifiers"), [True]),
     Key("clones", "skip_docstrings", B, True, PP, "clones", path("clone", "request", "skip_docstrings"), [True, False],
-        plumbing=("NotCopied", False)),
+        coq_key="key_clones_skip_docstrings"),
     Key("clones", "enable_dfa", B, True, PP, "clones", path("clone", "request", "enable_dfa"), [False]),
     Key("clones", "type1_threshold", F_, 0.85, PPOS, "clones", path("clone", "request", "type1_threshold"), [0.95, 0.7, 1.5], rng=(0.7501, 1.0)),
     Key("clones", "type2_threshold", F_, 0.75, PPOS, "clones", path("clone", "request", "type2_threshold"), [0.8, 0.7], rng=(0.7001, 0.8499)),
@@ -455,6 +481,27 @@ def run_bad_config(args):
     return dict(cmd=cmd, how=how, kind=kind, rc=rc, ran=ran, stderr=err[-400:], argv=[cmd] + argv + ["."], config=text)
 
 
+def run_selection_case(args):
+    """does dead code detection run: --select / --skip-deadcode / [dead_code] enabled."""
+    c17, idx, select, skip, filev, root = args
+    d = os.path.join(root, "deadsel%02d" % idx)
+    shutil.rmtree(d, ignore_errors=True)
+    write_files(c17, d, ["deadmod.py", "cxmod.py"])
+    if filev is not None:
+        style = "pyscn" if idx % 2 == 0 else "pyproject"
+        with open(os.path.join(d, ".pyscn.toml" if style == "pyscn" else "pyproject.toml"), "w") as f:
+            f.write(config_text("dead_code", [("enabled", "true" if filev else "false")], style))
+    if select is None:
+        argv = ["--json", "--skip-clones", "--skip-cbo", "--skip-lcom", "--skip-deps"] + (["--skip-deadcode"] if skip else [])
+    else:
+        argv = ["--json", "--select", "complexity,deadcode" if select else "complexity"]
+    rc, out, err = lib.pyscn(["analyze", "--no-open"] + argv + ["."], d, timeout=180)
+    data = c17.read_report(d)
+    shutil.rmtree(d, ignore_errors=True)
+    return dict(rc=rc, ran=None if data is None else data.get("dead_code") is not None, stderr=err[-300:], argv=["analyze", "--no-open"] + argv + ["."],
+                select=select, skip=skip, file=filev)
+
+
 class _NoFile:
     def __repr__(self):
         return "<key absent>"
@@ -527,7 +574,9 @@ class KeySweep:
         # (name, file text); "...+pyi": a project with a stub file, a configuration file that only sets an unrelated key to its default
         self.djobs = [(c17, "nofile", None, root), (c17, "pyscn", explicit_defaults_toml(""), root),
                       (c17, "pyproject", "[project]\nname = \"sample\"\n\n" + explicit_defaults_toml("tool.pyscn."), root),
-                      (c17, "nofile+pyi", None, root), (c17, "minimal+pyi", "[lcom]\nlow_threshold = 2\n", root)]
+                      (c17, "nofile+pyi", None, root), (c17, "minimal+pyi", "[lcom]\nlow_threshold = 2\n", root),
+                      # the stub project again: an empty configuration file, and one that spells out every default
+                      (c17, "empty+pyi", "# no keys\n", root), (c17, "pyscn+pyi", explicit_defaults_toml(""), root)]
         self.bjobs = []
         for cmd in ("analyze", "check"):
             for how in (".pyscn.toml", "pyproject.toml", "explicit"):
@@ -535,18 +584,24 @@ class KeySweep:
                 if how == "pyproject.toml" and kind == "syntax":
                     kind, text = BAD_CONFIGS[1]      # an unparsable pyproject.toml is not recognisably pyscn's: skipped like any other
                 self.bjobs.append((c17, len(self.bjobs), cmd, how, kind, text, root))
-        self.ex = self.fut = self.fut_d = self.fut_b = None
+        # (--select: None / names deadcode / does not, --skip-deadcode, [dead_code] enabled: absent / true / false)
+        self.sjobs = [(c17, i, sel, skip, fv, root) for i, (sel, skip, fv) in enumerate(
+            [(None, False, None), (None, False, False), (None, False, True), (None, True, None), (None, True, True), (None, True, False),
+             (True, False, False), (True, False, None), (True, False, True), (False, False, True), (False, False, False), (False, False, None)])]
+        self.ex = self.fut = self.fut_d = self.fut_b = self.fut_s = None
 
     def start(self, workers=8):
         self.ex = ThreadPoolExecutor(max_workers=workers)
         self.fut_d = [self.ex.submit(run_defaults_case, j) for j in self.djobs]
         self.fut = [self.ex.submit(run_key_case, j) for j in self.jobs]
         self.fut_b = [self.ex.submit(run_bad_config, j) for j in self.bjobs]
+        self.fut_s = [self.ex.submit(run_selection_case, j) for j in self.sjobs]
 
     def wait(self):
         impl = [f.result() for f in self.fut]
         self.dres = [f.result() for f in self.fut_d]
         self.bres = [f.result() for f in self.fut_b]
+        self.sres = [f.result() for f in self.fut_s]
         self.ex.shutdown()
         self.res = [impl[self.absent_runs[w[1]]] if w[0] == "absent" else impl[w[1]] for w in self.where]
 
@@ -576,20 +631,66 @@ class KeySweep:
         terms = []
         for (k, v), r in zip(self.cases, self.res):
             o = self.observed(k, r)
-            terms.append("(run_key %s %s, %s)" % (k.coq_args(), self.file_arg(k, v),
-                                                 "Some (judge_key %s %s %s)" % (k.coq_args(), self.file_arg(k, v), o) if o else "@None bool"))
-        return ("C17_keys", REQ, "Eval vm_compute in %s.\n" % clist(terms))
+            terms.append("(%s, %s)" % (k.coq_run(self.file_arg(k, v)),
+                                       "Some (%s)" % k.coq_judge(self.file_arg(k, v), o) if o else "@None bool"))
+        # the instances of Cli/ConfigKeysWiring.v against this table: (presence, default, lo, hi) must be the same
+        inst = ["(match k_presence %s with %s => true | _ => false end && (k_default %s =? %s) && (k_lo %s =? %s) && (k_hi %s =? %s))"
+                % (k.coq_key, k.presence, k.coq_key, cZ(k.enc(k.default)), k.coq_key, cZ(self.coq_range(k)[0]), k.coq_key, cZ(self.coq_range(k)[1]))
+                for k in KEYS if k.coq_key]
+        body = "Eval vm_compute in %s.\n" % clist(terms)
+        body += "Eval vm_compute in (%s : list bool).\n" % clist(inst)
+        body += "Eval vm_compute in (%s : list (list dead_reason * list dead_reason)).\n" % clist(self.detect_terms())
+        cb = lambda b: "None" if b is None else ("(Some true)" if b else "(Some false)")
+        body += "Eval vm_compute in (%s : list (bool * bool)).\n" % clist(
+            ["run_dead_code_runs %s %s %s" % (cb(r["select"]), "true" if r["skip"] else "false", cb(r["file"])) for r in self.sres])
+        return ("C17_keys", REQ, body)
+
+    @staticmethod
+    def coq_range(k):
+        lo, hi = k.rng
+        if k.kind == "frac" and k.rng != NOVAL:
+            lo, hi = int(round(lo * 10000)), int(round(hi * 10000))
+        return lo, hi
+
+    # ---- [dead_code] detect_*: which kinds of findings are reported, against reported / switch_of of Cli/ConfigKeysWiring.v ----
+    DETECT = ["detect_after_return", "detect_after_break", "detect_after_continue", "detect_after_raise", "detect_unreachable_branches"]
+    REASON = {"unreachable_after_return": "RAfterReturn", "unreachable_after_break": "RAfterBreak", "unreachable_after_continue": "RAfterContinue",
+              "unreachable_after_raise": "RAfterRaise", "unreachable_branch": "RBranch"}
+
+    def detect_cases(self):
+        """(key, value, reasons reported without a configuration file, reasons reported with the key set)"""
+        res = []
+        for (k, v), r in zip(self.cases, self.res):
+            if k.section == "dead_code" and k.key in self.DETECT and v is not NOFILE and r["data"] is not None and r["data"].get("dead_code"):
+                base = self.res[[i for i, (k2, v2) in enumerate(self.cases) if k2 is k and v2 is NOFILE][0]]
+                if base["data"] is None or not base["data"].get("dead_code"):
+                    continue
+                res.append((k, v, sorted(x["reason"] for x in dead_findings(base["data"])), sorted(x["reason"] for x in dead_findings(r["data"]))))
+        return res
+
+    def detect_terms(self):
+        terms = []
+        for k, v, base, got in self.detect_cases():
+            sw = " ".join(("true" if not (name == k.key and not v) else "false") for name in self.DETECT)
+            terms.append("run_detect %s %s" % (sw, clist([self.REASON.get(x, "ROtherReason") for x in base])))
+        return terms
 
     def decide(self, out):
         ck, c17, cases, res, dres, djobs = self.ck, self.c17, self.cases, self.res, self.dres, self.djobs
-        model = None
+        model = inst = detect = selm = None
         try:
-            model = lib.parse_coq_values(out)[0]
+            vals = lib.parse_coq_values(out)
+            model, inst, detect, selm = vals[0], vals[1], vals[2], vals[3]
             if len(model) != len(cases):
                 raise RuntimeError("%d values for %d cases" % (len(model), len(cases)))
         except Exception as e:
             ck.broken_ties.append("key sweep: model evaluation failed: %s" % str(e)[-800:])
-            model = None
+            model = inst = detect = selm = None
+        if inst is not None:
+            for k, same in zip([k for k in KEYS if k.coq_key], inst):
+                if same is not True:
+                    ck.broken_ties.append("key sweep: presence / default / range of [%s] %s in harness/c17keys.py differ from %s (Cli/ConfigKeysWiring.v)"
+                                          % (k.section, k.key, k.coq_key))
         st = dict(key_cases=len(cases), keys=len(KEYS), spec_bad=0, tie_bad=0, known=0, behaviour_checked=0, rejected=0, unreadable=0,
                   by_plumbing={}, both_styles=self.thorough)
         nshown = 0
@@ -648,6 +749,57 @@ class KeySweep:
                         st["spec_bad"] += 1
                         ck.violation("analyze: [%s] %s: the report echoes the value %s but %s" % (k.section, k.key, json.dumps(inforce), bad), replay)
 
+        # ---- [dead_code] detect_*: the kinds of findings reported, against the model and the property ------------------------
+        st["detect_cases"] = 0
+        if detect is not None:
+            dcases = self.detect_cases()
+            if len(detect) != len(dcases):
+                ck.broken_ties.append("key sweep: %d detect_* evaluations for %d cases" % (len(detect), len(dcases)))
+            else:
+                coq_of = lambda rs: sorted(self.REASON.get(x, "ROtherReason") for x in rs)
+                for (k, v, base, got), (m_rep, s_rep) in zip(dcases, detect):
+                    st["detect_cases"] += 1
+                    replay = {"key": "[dead_code] %s" % k.key, "file_value": k.toml(v), "files": SELECT_FILES[k.select],
+                              "reported_without_file": base, "reported": got, "model": m_rep, "spec": s_rep}
+                    if coq_of(got) != sorted(s_rep):
+                        e = ck.match_known({"part": "key-behaviour", "key": k.name, "family": k.family})
+                        if e and coq_of(got) == sorted(m_rep):
+                            st["known"] += 1
+                            ck.known_finding(e)
+                        else:
+                            st["spec_bad"] += 1
+                            ck.violation("analyze: [dead_code] %s = %s: findings of the kinds %s are reported, the switches select %s"
+                                         % (k.key, k.toml(v), got, sorted(s_rep)), replay)
+                    elif coq_of(got) != sorted(m_rep):
+                        st["tie_bad"] += 1
+                        ck.broken_ties.append("key sweep: [dead_code] %s = %s: pyscn reports %s, model Cli/ConfigKeysWiring.v %s" % (k.key, k.toml(v), got, m_rep))
+
+        # ---- does dead code detection run: --select / --skip-deadcode over [dead_code] enabled over the default -------------
+        st["dead_code_selection_cases"] = len(self.sres)
+        if selm is not None and len(selm) == len(self.sres):
+            for r, (m_runs, s_runs) in zip(self.sres, selm):
+                replay = dict(r, files=["deadmod.py", "cxmod.py"], model=m_runs, spec=s_runs,
+                              config=None if r["file"] is None else "[dead_code] enabled = %s" % ("true" if r["file"] else "false"))
+                if r["ran"] is None:
+                    ck.broken_ties.append("key sweep: no report for %s" % " ".join(r["argv"]))
+                elif r["ran"] != s_runs:
+                    e = ck.match_known({"part": "key", "key": "dead_code.enabled", "family": "dead_code.enabled",
+                                        "cell": "absent" if r["file"] is None else ("default" if r["file"] else "nondefault")})
+                    if e and r["ran"] == m_runs:
+                        st["known"] += 1
+                        ck.known_finding(e)
+                    else:
+                        st["spec_bad"] += 1
+                        ck.violation("analyze %s with %s: dead code detection %s, precedence (--select / --skip-deadcode, else the file, else on) says it %s"
+                                     % (" ".join(r["argv"][2:-1]), replay["config"] or "no configuration file", "runs" if r["ran"] else "does not run",
+                                        "runs" if s_runs else "does not run"), replay)
+                elif r["ran"] != m_runs:
+                    st["tie_bad"] += 1
+                    ck.broken_ties.append("key sweep: %s, %s: dead code detection %s, model Cli/ConfigKeysWiring.v says %s"
+                                          % (" ".join(r["argv"]), replay["config"], r["ran"], m_runs))
+        elif selm is not None:
+            ck.broken_ties.append("key sweep: %d dead_code_runs evaluations for %d runs" % (len(selm), len(self.sres)))
+
         # ---- (D3) a configuration file that cannot be loaded ------------------------------------------------------------
         st["unloadable_config_runs"] = len(self.bres)
         for r in self.bres:
@@ -666,8 +818,9 @@ class KeySweep:
                 ck.broken_ties.append("key sweep: analyze without configuration wrote no report: %s" % base["stderr"][-300:])
                 continue
             cb = canon_full(c17, base["data"])
-            what = ("a configuration file that only sets [lcom] low_threshold to its default" if r["name"].endswith("+pyi") else
-                    "a %s file that spells out every key with its documented default" % r["name"])
+            what = {"minimal+pyi": "a configuration file that only sets [lcom] low_threshold to its default", "empty+pyi": "an empty configuration file",
+                    "pyscn+pyi": "a .pyscn.toml that spells out every key with its documented default (project with a .pyi stub)"}.get(
+                        r["name"], "a %s file that spells out every key with its documented default" % r["name"])
             if r["data"] is None:
                 st["spec_bad"] += 1
                 ck.violation("analyze refuses %s (exit %s): %s" % (what, r["rc"], r["stderr"][-300:]), {"style": r["name"], "config": djobs[j][2]})
